@@ -196,6 +196,25 @@ def translate(d):
         raise Unsupported("failed growth does not leave the VM loop")
     req = tr2.z(g[1][2][1])
     sites = re.findall(r"sexp_ensure_stack\((.*)\);", strip_comments(txt))
+    # ---- sexp_restore_stack (round 4): trigger, request, and the ORDER of growth and destination
+    rb = re.sub(r"\s+", " ", strip_comments(function_body(txt, r"^static sexp sexp_restore_stack \(sexp ctx, sexp saved\) \{")))
+    m1 = re.search(r"if \(\(len\+(\d+) >= sexp_stack_length\(sexp_context_stack\(ctx\)\)\) && !sexp_grow_stack\(ctx, len(?:\+(\d+))?\)\) return sexp_global\(ctx, SEXP_G_OOS_ERROR\);", rb)
+    if not m1:
+        raise Unsupported("sexp_restore_stack: growth test is not `if ((len+K >= sexp_stack_length(..)) && !sexp_grow_stack(ctx, len+K2)) return OOS`")
+    if "sexp_uint_t len = sexp_vector_length(saved)" not in rb:
+        raise Unsupported("sexp_restore_stack: len is not the length of the saved vector")
+    dest = [mm.start() for mm in re.finditer(r"sexp_stack_data\(sexp_context_stack\(ctx\)\)", rb)]
+    if len(dest) != 1 or dest[0] < m1.end() or not re.search(r"; to = sexp_stack_data\(sexp_context_stack\(ctx\)\);", rb):
+        raise Unsupported("sexp_restore_stack: the destination pointer is not taken from the context's stack AFTER the growth "
+                          "(after sexp_grow_stack the context points at a new stack object)")
+    m2 = re.search(r"for \(i=0; i<len; i\+\+\) to\[i\] = from\[i\]; sexp_context_top\(ctx\) = len;", rb[dest[0]:])
+    if not m2 or "from = sexp_vector_data(saved)" not in rb:
+        raise Unsupported("sexp_restore_stack: copy loop is not `for (i=0; i<len; i++) to[i] = from[i]; sexp_context_top(ctx) = len;` from the saved vector")
+    rk1, rk2 = int(m1.group(1)), int(m1.group(2) or 0)
+    # sexp_save_stack: a vector of `to` words, words 0 .. to-1 copied
+    sb = re.sub(r"\s+", " ", strip_comments(function_body(txt, r"^static sexp sexp_save_stack \(sexp ctx, sexp \*stack, sexp_uint_t to\) \{")))
+    if not re.search(r"res = sexp_make_vector\(ctx, sexp_make_fixnum\(to\), [A-Z_]+\); data = sexp_vector_data\(res\); for \(i=0; i<to; i\+\+\) data\[i\] = stack\[i\]; return res;", sb):
+        raise Unsupported("sexp_save_stack is not `res = make_vector(to); for (i=0; i<to; i++) data[i] = stack[i];`")
     coq = "\n".join([
         "(* GENERATED by gen/c01_stack.py from vm.c (sexp_grow_stack, sexp_ensure_stack).  Do not edit. *)",
         "From Coq Require Import ZArith Bool.", "Local Open Scope Z_scope.", "Local Open Scope bool_scope.", "",
@@ -204,8 +223,11 @@ def translate(d):
         "(* words copied from the old stack: for (i=top+%d; i>=0; i--) *)" % copy_k,
         "Definition gen_grow_copy (top : Z) : Z := top + %d + 1." % copy_k, "",
         "(* sexp_ensure_stack(n) *)",
-        "Definition gen_ensure_stack (MAX len top n : Z) : option Z :=\n  if %s then gen_grow_stack MAX len %s else Some len." % (cond, req), ""])
-    return dict(coq=coq, sites=sites, req=req, cond=cond)
+        "Definition gen_ensure_stack (MAX len top n : Z) : option Z :=\n  if %s then gen_grow_stack MAX len %s else Some len." % (cond, req), "",
+        "(* sexp_restore_stack: slen = length of the context's stack, n = length of the saved vector; the destination is read AFTER the growth *)",
+        "Definition gen_restore_stack (MAX slen n : Z) : option Z :=\n  if (slen <=? n + %d) then gen_grow_stack MAX slen (n + %d) else Some slen." % (rk1, rk2),
+        "Definition gen_restore_copy (n : Z) : Z := n.   (* for (i=0; i<len; i++) to[i] = from[i]; top = len *)", ""])
+    return dict(coq=coq, sites=sites, req=req, cond=cond, restore=(rk1, rk2))
 
 
 def regen(ctx):
